@@ -304,6 +304,10 @@ def family_f16():
         "decl_tagged_obj", {"var": "d", "marker": "901", "tag": "T"})
     k = K()
     # a tagged declaration in a function that has other bindings (tagged differently / untagged) before it
+    # declared at three places with three tags (the later ones are never executed): the variable carries all of them
+    add([I.expr(I.call(901)), I.ann("d", "@T"), I.expr(I.call(902)), I.assign(I.name("b"), I.read("d")), I.seen("b"), I.ret(I.read("b")),
+         I.ann("d", "@U"), I.ann("d", "@V")],
+        "decl_three_tags", {"var": "d", "marker": "901", "tag": "T", "ann": "ann:ptera.tag.T & ptera.tag.U & ptera.tag.V"})
     add([I.ann("a", "@U", I.site(k())), I.assign(I.name("c"), I.site(k())), I.expr(I.call(901)), I.ann("d", "@T"), I.expr(I.call(902)), I.seen("d"),
          I.ret(I.add(I.read("d"), I.read("a")))], "decl_tagged_mixed", {"var": "d", "marker": "901", "tag": "T"})
     k = K()
